@@ -762,6 +762,58 @@ def correspondence(ctx):
                 e_lines.append("E2ENAT %d %d G:%s %s %d 3" % (1 if isl else 0, fam, layout, hx(sn[0]), LPORT)); e_impls.append(er)
                 e_descs.append(("guard", fam, a, p, isl))
                 ctx.count("guard_cases")
+    # the guard with the REAL helpers.islocal: whatever the kernel answers to its bind() probe of the proxy's own
+    # address, a connection to the proxy's own listening socket is never forwarded (implementation-only oracle)
+    import errno as _errno
+    import sshuttle.helpers as _helpers
+    real_socket_mod = _helpers.socket
+
+    class _ProbeSock(object):
+        def __init__(self, outcome):
+            self.outcome = outcome
+
+        def bind(self, addr):
+            if self.outcome is not None:
+                raise OSError(self.outcome, os.strerror(self.outcome))
+
+        def close(self):
+            pass
+
+    class _SockProxy(object):
+        outcome = None
+
+        def __getattr__(self, k):
+            return getattr(real_socket_mod, k)
+
+        def socket(self, *a, **k):
+            return _ProbeSock(self.outcome)
+
+    proxy = _SockProxy()
+    stub_islocal = world.client.islocal
+    _helpers.socket = proxy
+    world.client.islocal = _helpers.islocal
+    try:
+        for fam, a, sn in ((AF_INET, bytes([127, 0, 0, 1]), ("127.0.0.1", LPORT)),
+                           (AF_INET6, bytes(15) + b"\x01", ("::1", LPORT, 0, 0))):
+            for outcome in (None, _errno.EADDRINUSE, _errno.ENOBUFS, _errno.EACCES, _errno.EINVAL, _errno.ENOMEM):
+                proxy.outcome = outcome
+                layout = ctx.run_driver([("SA4 LE %s %d" % (hx(a), LPORT)) if fam == AF_INET else
+                                         ("SA6 LE %s %d 00000000 00000000" % (hx(a), LPORT))])[0]
+                try:
+                    acc, payload = run_accept(world, world.m_nat, FakeSock(fam, unhx(layout), sn), 3, False)
+                except OSError:
+                    acc, payload = "RAISED", None
+                ctx.case(("guard-real-islocal", fam, outcome), nontrivial=True)
+                ctx.count("guard_real_islocal_cases")
+                if payload is not None:
+                    ctx.violation("a connection to the proxy's own listening socket was forwarded to the server "
+                                  "(self-address guard with the real islocal)",
+                                  {"family": fam, "addr": hx(a), "port": LPORT,
+                                   "bind_probe_answer": "ok" if outcome is None else _errno.errorcode.get(outcome, str(outcome)),
+                                   "payload": hx(payload)})
+    finally:
+        _helpers.socket = real_socket_mod
+        world.client.islocal = stub_islocal
     batch(ctx, "original_dst", lines, impls, descs, sample_every=301)
     batch(ctx, "end-to-end nat", e_lines, e_impls, e_descs, sample_every=401)
 
